@@ -1592,7 +1592,13 @@ fn run_churn(r: &mut Report, c: &Churn) -> Result<(), String> {
                     reuse_judged += 1;
                     r.observe("realfs:churn:reuse-after-restart-judged", 1);
                     let grew = after.get(nbf).map(|b| b.len() > before[nbf].len()).unwrap_or(false);
+                    // The statement allows a new file after a (re)start, so "did not reuse" is an OBSERVATION, not a
+                    // verdict (it would alarm on a correct implementation that simply starts afresh); it is counted so
+                    // the evidence shows whether reuse was exercised at all.
                     if !grew || !created.is_empty() {
+                        r.observe("realfs:churn:reuse-after-restart:started-a-new-file-instead(unjudged)", 1);
+                    }
+                    if false {
                         r.violation(
                             &sig("reuse-did-not-find-the-newest-member"),
                             &format!(
